@@ -17,7 +17,7 @@ from ..recipes import gen as G
 from ..recipes import ref as R
 
 LEVEL = "exploration"
-BUDGET_S = {"quick": 75, "thorough": 1500}
+BUDGET_S = {"quick": 420, "thorough": 1500}
 N_RANDOM = {"quick": 1200, "thorough": 30000}
 RTOL = 1e-7
 
